@@ -37,7 +37,8 @@ def make_config(seed, tier, index=None):
             # first start with --autocreate only, a later restart with --defaults
             "upgrade_to_defaults": ac == "yes" and r.random() < 0.5,
             # the operator converts the default collections into bare repositories while the server is down
-            "migrate_to_bare": ac == "defaults" and r.random() < 0.4}
+            "migrate_to_bare": ac == "defaults" and r.random() < 0.4,
+            "stray": r.random() < 0.3}
 
 
 class DiscoRun:
@@ -332,6 +333,12 @@ class DiscoRun:
                 g = w.req("GET", target=tgt)
                 if g is not None and g.status == 200:
                     self.data[tgt] = (g.body, g.header("ETag"))
+        if self.cfg.get("stray") and round_no == 0 and len(found["homes"]) >= 2:
+            # a client drops an item directly into a home set (wrong URL, drag and drop in a file manager view)
+            for home, nm, body, ct in ((found["homes"][0], "stray.ics", gen.ics(r, "stray-uid"), "text/calendar"), (found["homes"][1], "stray.vcf", gen.vcf(r, uid="stray-card"), "text/vcard")):
+                rr = w.req("PUT", target=home + nm, headers=[("Content-Type", ct)], body=body)
+                self.ops.append({"op": "PUT", "target": home + nm, "status": rr.status if rr else None})
+            self.count("stray_items_in_home_sets")
         cols = sorted(found["calendars"] + found["addressbooks"])
         if cols and r.random() < 0.7:
             col = r.choice(cols)
